@@ -189,10 +189,13 @@ class PathResult:
         self.ctx, self.outcome, self.error = ctx, outcome, error
 
 
-def explore(run, func="?", max_paths=4000, setup=None):
-    """Run `run(ctx)` once per feasible decision prefix.  Returns the list of PathResult."""
+def explore_iter(run, func="?", max_paths=None, setup=None):
+    """Run `run(ctx)` once per feasible decision prefix; yields one PathResult per path (the caller
+    should extract what it needs and drop the result: a context holds a solver with all hypotheses)."""
+    import os
+    max_paths = max_paths or int(os.environ.get("PYVC_MAX_PATHS", "1500"))
     work = [[]]
-    results = []
+    n = 0
     while work:
         prefix = work.pop()
         ctx = Ctx(prefix, func)
@@ -205,9 +208,14 @@ def explore(run, func="?", max_paths=4000, setup=None):
             outcome = ("cut", None)
         except Unsupported as e:
             err = f"unsupported: {e}"
-        results.append(PathResult(ctx, outcome, err))
         work.extend(ctx.new_prefixes)
-        if len(results) > max_paths:
-            results.append(PathResult(ctx, None, f"path explosion (> {max_paths})"))
-            break
-    return results
+        ctx.solver = None
+        n += 1
+        yield PathResult(ctx, outcome, err)
+        if n > max_paths:
+            yield PathResult(ctx, None, f"path explosion (> {max_paths} paths)")
+            return
+
+
+def explore(run, func="?", max_paths=None, setup=None):
+    return list(explore_iter(run, func, max_paths, setup))
